@@ -443,6 +443,10 @@ func exhaustiveC04(thorough bool, emit func(C04Case) bool) {
 	}
 }
 
-func TestC04(t *testing.T) {
-	Run(t, Prop[C04Case]{ID: "C04", Gen: genC04, Exhaustive: exhaustiveC04, Check: checkC04})
+func propC04() Prop[C04Case] {
+	return Prop[C04Case]{ID: "C04", Gen: genC04, Exhaustive: exhaustiveC04, Check: checkC04}
 }
+
+func TestC04(t *testing.T) { Run(t, propC04()) }
+
+func FuzzGenC04(f *testing.F) { RunFuzz(f, propC04()) }
